@@ -283,6 +283,10 @@ func (r *Run) Violations() int {
 func (r *Run) Violation(signature, caseID, what string, scenario any) {
 	r.mu.Lock()
 	defer r.mu.Unlock()
+	// a plane borrowed from another property's check reports under the property that is running
+	if len(signature) > 4 && signature[0] == 'C' && signature[3] == ':' && signature[:3] != r.Prop {
+		signature = r.Prop + ":" + signature[4:] + ":(plane-of-" + signature[:3] + ")"
+	}
 	if len(what) > 3000 {
 		what = what[:3000] + "…"
 	}
